@@ -29,7 +29,7 @@ ASSUMPTIONS = ["np.dtype('f1') is rejected by NumPy (no 8-bit float type)"]
 def check(repo: Repo) -> Result:
     res = Result("C17")
     arr = repo.mod(ARR)
-    r1 = res.rule("C17-R1", "dtype selection at the four conversion sites: float/complex of the operand's own item size, never integer; complex kept; 1-byte widened or refused", floor=12)
+    r1 = res.rule("C17-R1", "dtype selection at the five conversion sites (in_units, in_base, convert_to_units, ufunc operand, ufunc out=): float/complex of the operand's own item size, never integer; complex kept; 1-byte widened or refused", floor=12)
     r2 = res.rule("C17-R2", "overflow warning for large integers on both conversion routes; thresholds are the first integers a float of that size cannot hold", floor=3)
 
     from engine.sem import canon_block, canon_expr, cnorm
@@ -49,35 +49,43 @@ def check(repo: Repo) -> Result:
                     out.append((n, d))
         return out
 
-    # ---- site A: in_units -------------------------------------------------------
+    # ---- sites A / A': the copying routes in_units and in_base -------------------------
+    data_forms = {"self.ndview", "self.d", "self.view(np.ndarray)"}
+
+    def copying_site(fn, label):
+        data_forms = {"self.ndview", "self.d", "self.view(np.ndarray)", "self.value", "self.v"}
+        prods = [x for x in ast.walk(fn.node) if isinstance(x, ast.BinOp) and isinstance(x.op, ast.Mult) and ({cnorm(x.left), cnorm(x.right)} & data_forms or any(cnorm(y) in data_forms for y in ast.walk(x.left)))]
+        if not prods:
+            # no `data * factor` expression: if the copying route scales in place after casting, the cast happens before the
+            # multiplication - narrow integers are rounded to the narrow float first and the factor is rounded to it too
+            early = [c for c, d in casts(fn) if c.args and cnorm(c.args[0]) in data_forms or (isinstance(c.func, ast.Attribute) and c.func.attr == "astype" and cnorm(c.func.value) in data_forms)]
+            if early:
+                res.bad(f"{label}:cast", fn.where(early[0]), f"{label} casts the bare data to the selected float type first and multiplies afterwards: 16-/32-bit integers are rounded before scaling and the factor is rounded to the narrow type (uint16 65535 mm -> m gives inf), so the stored value is no longer the exact product rounded once", "np.asarray(self.ndview * factor, dtype=...)", cnorm(early[0]), rid=r1)
+                prods = None
+            else:
+                raise AnalysisError(f"{fn.where()}: the product data * factor was not found in {label}")
+        cs = [(c, d) for c, d in casts(fn) if c.args and any(c.args[0] is p_ for p_ in (prods or []))]
+        want = "np.dtype(('c' if self.dtype.kind == 'c' else 'f') + str(max(2, self.dtype.itemsize)))"
+        if prods is None:
+            pass
+        elif len(cs) != 1:
+            res.bad(f"{label}:dtype", fn.where(prods[0]), f"{label} multiplies the data by the factor without casting the product to the selected float / complex dtype (the result takes whatever type NumPy's promotion gives, e.g. float64 for float32 data, or the cast happens before the multiplication)", f"np.asarray(data * factor, dtype={want})", cnorm(prods[0]), rid=r1)
+            res.bad(f"{label}:cast", fn.where(prods[0]), "the converted data are produced by multiplying the bare data with the (float) factor and casting the product to the selected dtype", rid=r1)
+        else:
+            call, d = cs[0]
+            txt = canon_expr(d, fn)
+            res.check(txt == want, f"{label}:dtype", fn.where(call), f"{label} must convert into float (complex for complex input) of the array's own item size, at least 2 bytes", want, txt, rid=r1)
+            arg0 = call.args[0]
+            facs = sorted([cnorm(arg0.left), cnorm(arg0.right)])
+            ok = bool(set(facs) & data_forms) and any(f not in data_forms and "conv" in f for f in facs)
+            res.check(ok, f"{label}:cast", fn.where(call), "the converted data are produced by multiplying the bare data with the (float) factor and casting the product to the selected dtype", "np.asarray(self.ndview * factor, dtype=...)", cnorm(call), rid=r1)
+
     fn = arr.func("unyt_array.in_units")
     res.fn(fn)
-    data_forms = {"self.ndview", "self.d", "self.view(np.ndarray)"}
-    prods = [x for x in ast.walk(fn.node) if isinstance(x, ast.BinOp) and isinstance(x.op, ast.Mult) and ({cnorm(x.left), cnorm(x.right)} & data_forms or any(cnorm(y) in data_forms for y in ast.walk(x.left)))]
-    if not prods:
-        # no `data * factor` expression: if the copying route scales in place after casting, the cast happens before the
-        # multiplication - narrow integers are rounded to the narrow float first and the factor is rounded to it too
-        early = [c for c, d in casts(fn) if c.args and cnorm(c.args[0]) in data_forms or (isinstance(c.func, ast.Attribute) and c.func.attr == "astype" and cnorm(c.func.value) in data_forms)]
-        if early:
-            res.bad("in_units:cast", fn.where(early[0]), "in_units casts the bare data to the selected float type first and multiplies afterwards: 16-/32-bit integers are rounded before scaling and the factor is rounded to the narrow type (uint16 65535 mm -> m gives inf), so the stored value is no longer the exact product rounded once", "np.asarray(self.ndview * factor, dtype=...)", cnorm(early[0]), rid=r1)
-            prods = None
-        else:
-            raise AnalysisError(f"{fn.where()}: the product data * factor was not found in in_units")
-    cs = [(c, d) for c, d in casts(fn) if c.args and any(c.args[0] is p_ for p_ in (prods or []))]
-    want = "np.dtype(('c' if self.dtype.kind == 'c' else 'f') + str(max(2, self.dtype.itemsize)))"
-    if prods is None:
-        pass
-    elif len(cs) != 1:
-        res.bad("in_units:dtype", fn.where(prods[0]), "in_units multiplies the data by the factor without casting the product to the selected float / complex dtype (the result takes whatever type NumPy's promotion gives, e.g. float64 for float32 data, or the cast happens before the multiplication)", f"np.asarray(data * factor, dtype={want})", cnorm(prods[0]), rid=r1)
-        res.bad("in_units:cast", fn.where(prods[0]), "the converted data are produced by multiplying the bare data with the (float) factor and casting the product to the selected dtype", rid=r1)
-    else:
-        call, d = cs[0]
-        txt = canon_expr(d, fn)
-        res.check(txt == want, "in_units:dtype", fn.where(call), "in_units must convert into float (complex for complex input) of the array's own item size, at least 2 bytes", want, txt, rid=r1)
-        arg0 = call.args[0]
-        facs = sorted([cnorm(arg0.left), cnorm(arg0.right)])
-        ok = bool(set(facs) & data_forms) and any(f not in data_forms and "conv" in f for f in facs)
-        res.check(ok, "in_units:cast", fn.where(call), "the converted data are produced by multiplying the bare data with the (float) factor and casting the product to the selected dtype", "np.asarray(self.ndview * factor, dtype=...)", cnorm(call), rid=r1)
+    copying_site(fn, "in_units")
+    fb = arr.func("unyt_array.in_base")
+    res.fn(fb)
+    copying_site(fb, "in_base")
     _warning_site(res, fn, r2, "in_units", "self")
 
     # ---- site B: convert_to_units ----------------------------------------------------
@@ -220,6 +228,8 @@ def _warning_site(res, fn, rid, name, data_root):
 UO = "unyt/unit_object.py"
 
 MUTANTS = [
+    Mutant("in_base-promotion-decides", ARR, "unyt_array.in_base", "        ret = np.asarray(self.ndview * conv, dtype=new_dtype)\n        if offset:", "        ret = self.ndview * conv\n        if offset:", ("C17-R1",)),
+    Mutant("in_base-always-double", ARR, "unyt_array.in_base", "        dsize = max(2, self.dtype.itemsize)\n        new_dtypekind = \"c\" if self.dtype.kind == \"c\" else \"f\"\n        new_dtype = np.dtype(new_dtypekind + str(dsize))\n        ret = np.asarray(self.ndview * conv", "        dsize = 8\n        new_dtypekind = \"c\" if self.dtype.kind == \"c\" else \"f\"\n        new_dtype = np.dtype(new_dtypekind + str(dsize))\n        ret = np.asarray(self.ndview * conv", ("C17-R1",)),
     Mutant("in_units-int-target", ARR, "unyt_array.in_units", 'new_dtypekind = "c" if self.dtype.kind == "c" else "f"', 'new_dtypekind = "c" if self.dtype.kind == "c" else self.dtype.kind', ("C17-R1",)),
     Mutant("in_units-no-widen", ARR, "unyt_array.in_units", "dsize = max(2, self.dtype.itemsize)", "dsize = self.dtype.itemsize", ("C17-R1",)),
     Mutant("in_units-complex-lost", ARR, "unyt_array.in_units", 'new_dtypekind = "c" if self.dtype.kind == "c" else "f"', 'new_dtypekind = "f"', ("C17-R1",)),
@@ -232,7 +242,7 @@ MUTANTS = [
     Mutant("threshold-off", ARR, None, "LARGE_INPUT = {4: 16777217, 8: 9007199254740993}", "LARGE_INPUT = {4: 16777217, 8: 9007199254740992}", ("C17-R2",)),
     Mutant("warning-signed-only", ARR, "unyt_array.in_units", '            if self.dtype.kind in ("u", "i"):\n                large', '            if self.dtype.kind in ("i", "i"):\n                large', ("C17-R2",)),
     Mutant("warning-dropped", ARR, "unyt_array.in_units", "                if large and np.any(np.abs(self.d) > large):", "                if False:", ("C17-R2",)),
-    Mutant("in-base-skips-unit-factor", ARR, "unyt_array.in_base", "ret = self.v * conv", "ret = self.v\n        if conv != 1:\n            ret = ret * conv", ("C17-R3",)),
+    Mutant("in-base-skips-unit-factor", ARR, "unyt_array.in_base", "ret = np.asarray(self.ndview * conv, dtype=new_dtype)", "ret = np.asarray(self.ndview, dtype=new_dtype)\n        if conv != 1:\n            ret = np.asarray(self.ndview * conv, dtype=new_dtype)", ("C17-R3",)),
     Mutant("factor-cast-to-data-dtype", UO, "_get_conversion_factor", "    ratio = old_basevalue / new_basevalue\n", "    ratio = old_basevalue / new_basevalue\n    if np.dtype(dtype).kind != \"i\":\n        ratio = np.dtype(dtype).type(ratio)\n", ("C17-R5",)),
     Mutant("in-units-cast-before-multiply", ARR, "unyt_array.in_units", "np.asarray(self.ndview * conversion_factor, dtype=new_dtype)", "np.multiply(self.ndview.astype(new_dtype), conversion_factor)", ("C17-R1",)),
     Mutant("coerce-through-python-scalars", ARR, "_coerce_iterable_units", "ret.append(datum.in_units(ff.units))", "ret.append(datum.to_value(ff))", ("C17-R6",)),
